@@ -371,7 +371,7 @@ SPECS["C07"] = dict(
         dict(id="flood", run="^TestC07ShutdownUnderConnects$", quick=dict(shards=1, checks=40, timeout=600, shrinktime=20), thorough=dict(shards=2, checks=1000, timeout=3400, shrinktime=120)),
         dict(id="regstop", run="^TestC07RegisterAtShutdown$", quick=dict(shards=1, checks=40, timeout=600, shrinktime=20), thorough=dict(shards=2, checks=1000, timeout=3400, shrinktime=120)),
         dict(id="failedstart", run="^TestC07FailedStart$", quick=dict(shards=1, checks=150, timeout=600, shrinktime=20), thorough=dict(shards=2, checks=5000, timeout=3400, shrinktime=120)),
-        dict(id="clientstop", run="^TestC07ClientStop$", quick=dict(shards=3, checks=14, timeout=600, shrinktime=20), thorough=dict(shards=3, checks=500, timeout=3400, shrinktime=120)),
+        dict(id="clientstop", run="^TestC07ClientStop$", quick=dict(shards=3, checks=14, timeout=600, shrinktime=20), thorough=dict(shards=3, checks=300, timeout=3400, shrinktime=120)),
     ]),
 )
 
@@ -418,7 +418,7 @@ SPECS["C19"] = dict(
     max_parallel=12,
     jobs=engine_jobs("c19", "./verifx/c19", [
         dict(id="control", run="^TestC19ControlAPI$", quick=dict(shards=8, checks=25, timeout=600, shrinktime=30), thorough=dict(shards=4, checks=2500, timeout=3400, shrinktime=300)),
-        dict(id="client", run="^TestC19Client$", quick=dict(shards=4, checks=12, timeout=600, shrinktime=30), thorough=dict(shards=6, checks=600, timeout=3400, shrinktime=300)),
+        dict(id="client", run="^TestC19Client$", quick=dict(shards=4, checks=12, timeout=600, shrinktime=30), thorough=dict(shards=6, checks=300, timeout=3400, shrinktime=300)),
     ]),
 )
 
